@@ -471,9 +471,10 @@ Proof.
            end) l tt)
   end.
   - rewrite post_init_fold. destruct (MP.post_init_loop vo fs) as [[]|]; reflexivity.
-  - intros [] [n o]. cbv beta iota. cbn [fst snd]. rewrite dict_mem_lift, dict_get_lift.
+  - intros [] [n o]. cbv beta iota zeta. cbn [fst snd]. rewrite dict_mem_lift, dict_get_lift.
     unfold EA.amem. destruct (EA.aget n fs) as [f|]; [|reflexivity].
-    cbn [negb option_map GT.of_opt GT.rbind]. rewrite order_lift, GVal.Zeqb_of_nat.
+    cbn [negb option_map GT.of_opt GT.rbind]. cbv zeta. rewrite order_lift, GVal.Zeqb_of_nat.
+    rewrite ?(Nat.eqb_sym (MP.f_order f) o).
     destruct (Nat.eqb o (MP.f_order f)); reflexivity.
 Qed.
 
@@ -760,3 +761,184 @@ Theorem gen_problem_hash_key : forall fid tn tidx e fs,
   GP.Problem_hash_key (gproblem tn tidx e fs) = (gassign tn tidx e, lift_formats fs) /\
   MP.hash_key (mproblem fid tn tidx e fs) = (massign fid tn tidx e, fs).
 Proof. intros. split; reflexivity. Qed.
+
+(* ------------------------------------------------------------------------------------------ *)
+(** * the entry points of compile/_porcelain.py, between the parsers and [cachable_tensor_method] *)
+
+Definition problem_result (ga : GD.ex_assignment) (r : EA.result MP.problem) : EA.result GT.Problem :=
+  match r with
+  | EA.Ok p => EA.Ok (GT.MkProblem ga (lift_formats (MP.p_formats p)))
+  | EA.Error err => EA.Error err
+  end.
+
+Lemma unwrap_out : forall r,
+  cres (GT.rbind r (fun x => GT.rbind (GP.unwrap_or_raise x) (fun ok => GT.Ret ok))) =
+  match out_gen r with
+  | MPSuccess a f => EA.Ok (GT.MkProblem a f)
+  | MPFailure err | MPRaise err => EA.Error err
+  end.
+Proof. intros [[[a f]|x]|x]; reflexivity. Qed.
+
+(** [tensor_method]: make_problem, a Failure is raised *)
+Theorem gen_tensor_method_problem_equiv : forall fid tn tidx e fs,
+  cres (GP.tensor_method_problem (gassign tn tidx e) (lift_formats fs)) =
+  match EA.assignment_check (massign fid tn tidx e) with
+  | EA.Error err => EA.Error (canon_err err)
+  | EA.Ok _ => problem_result (gassign tn tidx e) (MP.make_problem (massign fid tn tidx e) fs)
+  end.
+Proof.
+  intros fid tn tidx e fs. unfold GP.tensor_method_problem. cbv zeta.
+  rewrite unwrap_out, (gen_make_problem_equiv fid). unfold out_model, problem_result.
+  destruct (EA.assignment_check _) as [[]|]; [|reflexivity].
+  destruct (MP.make_problem _ fs); reflexivity.
+Qed.
+
+Notation lift_bound := GVal.lift_bound.
+Notation lift_arg := GVal.lift_arg.
+
+(** every Tensor argument's (modes, mode_ordering) is a Format ([Format.__post_init__] accepts it) *)
+Definition format_valid (f : MP.format) : bool :=
+  match GP.Format_post_init (lift_format f) with GT.Ret _ => true | GT.Raise _ => false end.
+Definition inputs_valid (inputs : list (string * MV.argument)) : bool :=
+  forallb (fun kv => match snd kv with
+                     | MV.ATensor _ m r _ => format_valid (MP.Format m r)
+                     | MV.ANotTensor => true
+                     end) inputs.
+
+Definition arg_format (a : MV.argument) : MP.format :=
+  match a with MV.ATensor _ m r _ => MP.Format m r | MV.ANotTensor => MP.Format [] [] end.
+Definition is_tensor_arg (a : MV.argument) : bool :=
+  match a with MV.ATensor _ _ _ _ => true | MV.ANotTensor => false end.
+
+Definition nontensor_check (fs : unit) (kv : string * MV.argument) : EA.result unit :=
+  match snd kv with
+  | MV.ANotTensor => EA.Error (EA.ETypeErrorNotTensor (fst kv))
+  | _ => EA.Ok fs
+  end.
+
+Definition arg_formats (inputs : list (string * MV.argument)) : list (string * MP.format) :=
+  map (fun kv => (fst kv, arg_format (snd kv))) inputs.
+
+Lemma formats_of_inputs_char : forall inputs,
+  MV.formats_of_inputs inputs =
+  match mfold nontensor_check inputs tt with
+  | EA.Ok _ => EA.Ok (arg_formats inputs)
+  | EA.Error err => EA.Error err
+  end.
+Proof.
+  induction inputs as [|[n a] r IH]; [reflexivity|].
+  cbn [MV.formats_of_inputs mfold]. unfold nontensor_check at 1. cbn [snd fst].
+  destruct a as [o m rr d|]; [|reflexivity]. rewrite IH.
+  destruct (mfold nontensor_check r tt) as [[]|]; reflexivity.
+Qed.
+
+Lemma mfold_ok_all_tensors : forall inputs,
+  mfold nontensor_check inputs tt = EA.Ok tt ->
+  forallb (fun kv => is_tensor_arg (snd kv)) inputs = true.
+Proof.
+  induction inputs as [|[n a] r IH]; [reflexivity|]. cbn [mfold forallb snd]. unfold nontensor_check at 1. cbn [snd fst].
+  destruct a; [|discriminate]. exact IH.
+Qed.
+
+Lemma rmap_map_pure : forall {A A' B} (h : A' -> A) (f : A -> GT.pyres B) (g : A' -> B) l,
+  (forall x, In x l -> f (h x) = GT.Ret (g x)) -> GT.rmap f (map h l) = GT.Ret (map g l).
+Proof.
+  induction l as [|x r IH]; intros H; simpl; [reflexivity|]. rewrite (H x (or_introl eq_refl)).
+  rewrite IH by (intros; apply H; right; assumption). reflexivity.
+Qed.
+
+Lemma dict_of_items_NoDup : forall {V} (l acc : list (string * V)),
+  NoDup (map fst acc ++ map fst l) ->
+  fold_left (fun a kv => dict_set String.eqb (fst kv) (snd kv) a) l acc = acc ++ l.
+Proof.
+  induction l as [|[k v] r IH]; intros acc ND; simpl; [rewrite app_nil_r; reflexivity|].
+  rewrite dict_set_fresh.
+  - rewrite IH; [rewrite <- app_assoc; reflexivity|]. rewrite map_app. simpl. rewrite <- app_assoc. exact ND.
+  - simpl in ND. apply NoDup_remove_2 in ND. intros H. apply ND. apply in_or_app. left. exact H.
+Qed.
+
+Lemma dict_set_lift : forall k f d,
+  dict_set String.eqb k (lift_format f) (lift_formats d) = lift_formats (EA.aput k f d).
+Proof.
+  induction d as [|[k' f'] r IH]; simpl; [reflexivity|].
+  destruct (String.eqb k k'); simpl; [reflexivity|]. fold (GVal.lift_formats r). rewrite IH. reflexivity.
+Qed.
+
+Lemma dict_union_lift : forall b a,
+  GP.dict_union String.eqb (lift_formats a) (lift_formats b) = lift_formats (MV.dict_union a b).
+Proof.
+  unfold GP.dict_union, MV.dict_union.
+  induction b as [|[k f] r IH]; intros a; simpl; [reflexivity|].
+  rewrite dict_set_lift. fold (GVal.lift_formats r). apply IH.
+Qed.
+
+(** [evaluate_tensora] (= [evaluate]) and [evaluate_cffi] for an Assignment object that exists, keyword
+    arguments (distinct names) and an output format that parsed: the TypeError of the first non-Tensor, else
+    make_problem on {target: output format} | {name: tensor.format} *)
+Section Evaluate.
+Variable fid : F -> Z.
+Variables (tn : string) (tidx : list string) (e : GD.ex_expr).
+Variables (outf : MP.format) (inputs : list (string * MV.argument)).
+Hypothesis exists_ : EA.assignment_check (massign fid tn tidx e) = EA.Ok tt.
+Hypothesis distinct : NoDup (map fst inputs).
+Hypothesis valid : inputs_valid inputs = true.
+
+Definition evaluate_spec : EA.result GT.Problem :=
+  match MV.formats_of_inputs inputs with
+  | EA.Error err => EA.Error err
+  | EA.Ok input_fs =>
+      problem_result (gassign tn tidx e)
+        (MP.make_problem (massign fid tn tidx e) (MV.dict_union [(tn, outf)] input_fs))
+  end.
+
+Lemma evaluate_generic : forall (body : GD.ex_assignment -> GT.pyres GT.Format -> pydict string GT.pyarg -> GT.pyres GT.Problem),
+  body = GP.evaluate_problem \/ body = GP.evaluate_cffi_problem ->
+  cres (body (gassign tn tidx e) (GT.Ret (lift_format outf)) (lift_bound inputs)) = evaluate_spec.
+Proof.
+  intros body Hb. unfold evaluate_spec. rewrite formats_of_inputs_char.
+  assert (L1 : forall f, (forall acc x, cres (f acc ((fun kv : string * MV.argument => (fst kv, lift_arg (snd kv))) x)) =
+                          nontensor_check acc x) ->
+               cres (GT.rfold f (lift_bound inputs) tt) = mfold nontensor_check inputs tt)
+    by (intros f Hf; unfold GVal.lift_bound; apply cres_rfold_map; exact Hf).
+  destruct Hb as [-> | ->].
+  all: unfold GP.evaluate_problem, GP.evaluate_cffi_problem; rewrite cres_rbind.
+  all: match goal with |- context [GT.rfold ?f (lift_bound inputs) tt] => rewrite (L1 f) end.
+  all: try (intros [] [n [o m r d|]]; reflexivity).
+  all: destruct (mfold nontensor_check inputs tt) as [[]|err] eqn:M; [|reflexivity].
+  all: apply mfold_ok_all_tensors in M.
+  all: unfold GVal.lift_bound at 1;
+    match goal with |- context [GT.rmap ?f (map ?h inputs)] =>
+      rewrite (rmap_map_pure h f (fun kv => (fst kv, lift_format (arg_format (snd kv)))) inputs)
+    end.
+  all: try (intros [n a] Hin; cbv beta iota; cbn [fst snd];
+            pose proof (proj1 (forallb_forall _ _) M _ Hin) as Ht;
+            pose proof (proj1 (forallb_forall _ _) valid _ Hin) as Hv; cbn [snd] in Ht, Hv;
+            destruct a as [o m r d|]; [|discriminate];
+            cbn [GVal.lift_arg GP.Tensor_format arg_format]; unfold format_valid in Hv;
+            unfold GP.Format_new; change (GT.MkFormat (map GVal.lift_mode m) (map Z.of_nat r)) with (lift_format (MP.Format m r));
+            destruct (GP.Format_post_init (lift_format (MP.Format m r))) as [[]|]; [reflexivity | discriminate]).
+  all: cbn [GT.rbind]; cbv zeta; unfold gassign at 1; cbn [GD.ex_assignment_target GT.rbind].
+  all: unfold GP.dict_of_items, GP.dict_union at 2;
+    rewrite (dict_of_items_NoDup _ nil)
+      by (cbn [map app]; rewrite map_map; cbn [fst]; exact distinct).
+  all: cbn [app dict_set].
+  all: replace (map (fun kv : string * MV.argument => (fst kv, lift_format (arg_format (snd kv)))) inputs)
+      with (lift_formats (arg_formats inputs))
+      by (unfold GVal.lift_formats, arg_formats; rewrite map_map; reflexivity).
+  all: change [(tn, lift_format outf)] with (lift_formats [(tn, outf)]); rewrite dict_union_lift.
+  all: fold (gassign tn tidx e); rewrite unwrap_out, (gen_make_problem_equiv fid); unfold out_model, problem_result;
+    rewrite exists_; destruct (MP.make_problem _ _); reflexivity.
+Qed.
+
+Theorem gen_evaluate_problem_equiv :
+  cres (GP.evaluate_problem (gassign tn tidx e) (GT.Ret (lift_format outf)) (lift_bound inputs)) = evaluate_spec /\
+  cres (GP.evaluate_cffi_problem (gassign tn tidx e) (GT.Ret (lift_format outf)) (lift_bound inputs)) = evaluate_spec.
+Proof. split; apply evaluate_generic; auto. Qed.
+End Evaluate.
+
+(** a concrete instance of the hypotheses of [gen_evaluate_problem_equiv] and of [fid_ok] *)
+Lemma hypotheses_instance :
+  EA.assignment_check (massign (fun _ => 0%Z) "T" ["i"] (GD.ExMultiply (GD.ExTensor "A" ["i"; "j"]) (GD.ExTensor "b" ["j"]))) = EA.Ok tt /\
+  inputs_valid [("A", MV.ATensor 2 [MP.Dense; MP.Compressed] [1; 0]%nat [3; 4]%Z); ("b", MV.ANotTensor)] = true /\
+  fid_ok (fun _ => 0%Z) (GD.ExTensor "A" ["i"]) (GD.ExInteger 2).
+Proof. repeat split; try reflexivity. intros x y []. Qed.
